@@ -51,7 +51,7 @@ func c19Run(ctx *core.Ctx) {
 		for _, limit := range []int{32, 64, 2000} {
 			lens := []int{limit - 2, limit - 1, limit, limit + 1, limit + 2, limit + 3, 3 * limit}
 			for _, L := range lens {
-				for _, pos := range []string{"first", "later", "mailline", "auth", "afterdata", "afterchunk", "afterrefused"} {
+				for _, pos := range []string{"first", "later", "mailline", "auth", "afterdata", "afterchunk", "afterrefused", "afterfailedchunk", "afteroverlimit"} {
 					for _, split := range []bool{false, true} {
 						for _, mode := range []srvMode{modeSMTP, modeLMTPRcpt} {
 							emit(c19Case{Kind: "length", Limit: limit, Len: L, Pos: pos, Split: split, Mode: mode})
@@ -158,6 +158,9 @@ func c19Enter(p *wire.Peer, mode srvMode, state string) bool {
 func c19Length(ctx *core.Ctx, c c19Case) {
 	ctx.Eval(fmt.Sprintf("length|%d|%d|%s|%v|%s", c.Limit, c.Len, c.Pos, c.Split, c.Mode), true)
 	rig := c19Rig(c.Mode, c.Limit)
+	if c.Pos == "afteroverlimit" {
+		rig.Srv.MaxMessageBytes = 10
+	}
 	p := rig.Dial()
 	fail := func(sig, msg string, rs []wire.Reply) {
 		ctx.Violate(sig, msg+fmt.Sprintf(" [limit=%d len=%d pos=%s split=%v mode=%s]", c.Limit, c.Len, c.Pos, c.Split, c.Mode), c, witness(rig.Log, rs))
@@ -206,6 +209,11 @@ func c19Length(ctx *core.Ctx, c c19Case) {
 		setup = []string{c.Mode.hello(), "MAIL FROM:<s@x.test>", "RCPT TO:<r@x.test>", "BDAT 3\r\nabc"}
 	case "afterrefused":
 		setup = []string{c.Mode.hello(), "BDAT 3\r\nabc"}
+	case "afterfailedchunk":
+		// the backend gives up in the middle of the chunk (body starts with FAILEARLY)
+		setup = []string{c.Mode.hello(), "MAIL FROM:<s@x.test>", "RCPT TO:<r@x.test>", "BDAT 41\r\nFAILEARLY ID:1\r\nmore data here 12345678\r\n"}
+	case "afteroverlimit":
+		setup = []string{c.Mode.hello(), "MAIL FROM:<s@x.test>", "RCPT TO:<r@x.test>", "BDAT 30\r\n123456789012345678901234567890"}
 	}
 	if probe == nil {
 		p.Close()
